@@ -39,6 +39,10 @@ func runE2EShards(c *core.Ctx, task string, nshards int, cfg string, mk func(i i
 
 // runE2EMixed is runE2EShards with a worker task per shard.
 func runE2EMixed(c *core.Ctx, nshards int, cfg string, mk func(i int) (string, interface{})) []e2eShard {
+	if c.ReplayDir != "" {
+		return replayE2E(c, cfg)
+	}
+
 	res := make([]e2eShard, nshards)
 
 	var wg sync.WaitGroup
@@ -189,4 +193,42 @@ func shardDir(c *core.Ctx, i int) (string, string) {
 	_ = os.MkdirAll(d, 0o755)
 
 	return d, filepath.Join(d, "trace.ndjson")
+}
+
+// replayE2E validates the trace stored in a replay directory again (bin/check <ID> <tier> --replay <dir>): the
+// recorded observations of the real agent are judged by the current specification and known-findings list.
+func replayE2E(c *core.Ctx, cfg string) []e2eShard {
+	r := e2eShard{idx: 0, wr: &core.WorkerResult{}}
+	src := filepath.Join(c.ReplayDir, "trace.ndjson")
+
+	b, err := os.ReadFile(src)
+	if err != nil {
+		r.err = fmt.Errorf("replay: %v", err)
+		return []e2eShard{r}
+	}
+
+	dir, trace := shardDir(c, 0)
+	_ = dir
+
+	if !strings.HasSuffix(strings.TrimSpace(string(b)), `{"ev":"end"}`) {
+		b = append(b, []byte("{\"ev\":\"end\"}\n")...)
+	}
+
+	if err := os.WriteFile(trace, b, 0o644); err != nil {
+		r.err = err
+		return []e2eShard{r}
+	}
+
+	r.trace = trace
+	r.sum.Steps = strings.Count(string(b), "\n")
+
+	devs := c.Findings.OpenIDs(c.Prop)
+	if devs == nil {
+		devs = []string{}
+	}
+
+	r.tr, r.err = c.RunTLC(core.TLCRun{Module: "TraceE2E", Cfg: cfg, Workers: 1, HeapMB: 3000, Timeout: 40 * time.Minute,
+		Env: map[string]string{"TRACE_FILE": trace}, Label: "replay", KnownDevs: devs})
+
+	return []e2eShard{r}
 }
